@@ -69,6 +69,9 @@ pub fn families(a: &Args, rng: &mut Rng) -> Vec<Fam> {
             v.push(Fam { t, fam: "same-language" });
         }
     }
+    for t in complementary_derivatives_family(&pool) {
+        v.push(Fam { t, fam: "fresh-manager" });
+    }
     for t in many_classes_family() {
         v.push(Fam { t, fam: "many-classes" });
     }
@@ -173,7 +176,7 @@ pub fn drive_c01(a: &Args) {
     let mut smt_jobs: Vec<(usize, usize)> = vec![];
     for (id, f) in fams.iter().enumerate() {
         // a fresh manager every 40 terms; in between the manager is "dirty" with earlier terms
-        if id % 40 == 0 || f.fam == "adjacent-ranges" {
+        if id % 40 == 0 || (f.fam == "adjacent-ranges" || f.fam == "fresh-manager") {
             // (creation order matters for that family: every term gets a fresh manager)
             mgr = ReManager::new();
         }
@@ -275,7 +278,7 @@ pub fn drive_c02(a: &Args) {
     let mut mgr = ReManager::new();
     let full_every = if a.thorough() { 250 } else { 400 };
     for (id, f) in fams.iter().enumerate() {
-        if id % 40 == 0 || f.fam == "adjacent-ranges" {
+        if id % 40 == 0 || (f.fam == "adjacent-ranges" || f.fam == "fresh-manager") {
             // (creation order matters for that family: every term gets a fresh manager)
             mgr = ReManager::new();
         }
@@ -379,7 +382,7 @@ pub fn drive_c03(a: &Args) {
     let mut mgr = ReManager::new();
     let per_term_nodes = a.sz(3, 6);
     for (id, f) in fams.iter().enumerate() {
-        if id % 40 == 0 || f.fam == "adjacent-ranges" {
+        if id % 40 == 0 || (f.fam == "adjacent-ranges" || f.fam == "fresh-manager") {
             // (creation order matters for that family: every term gets a fresh manager)
             mgr = ReManager::new();
         }
@@ -525,7 +528,7 @@ pub fn drive_c05(a: &Args) {
     let mut out = Out::create(&a.out, "c05_empty.ndjson");
     let mut mgr = ReManager::new();
     for (id, f) in fams.iter().enumerate() {
-        if id % 40 == 0 || f.fam == "adjacent-ranges" {
+        if id % 40 == 0 || (f.fam == "adjacent-ranges" || f.fam == "fresh-manager") {
             // (creation order matters for that family: every term gets a fresh manager)
             mgr = ReManager::new();
         }
@@ -754,7 +757,7 @@ pub fn drive_c18(a: &Args) {
     let mut out = Out::create(&a.out, "c18_start.ndjson");
     let mut mgr = ReManager::new();
     for (id, f) in fams.iter().enumerate() {
-        if id % 40 == 0 || f.fam == "adjacent-ranges" {
+        if id % 40 == 0 || (f.fam == "adjacent-ranges" || f.fam == "fresh-manager") {
             // (creation order matters for that family: every term gets a fresh manager)
             mgr = ReManager::new();
         }
@@ -841,7 +844,7 @@ pub fn drive_c19(a: &Args) {
     let mut out = Out::create(&a.out, "c19_closure.ndjson");
     let mut mgr = ReManager::new();
     for (id, f) in fams.iter().enumerate() {
-        if id % 40 == 0 || f.fam == "adjacent-ranges" {
+        if id % 40 == 0 || (f.fam == "adjacent-ranges" || f.fam == "fresh-manager") {
             // (creation order matters for that family: every term gets a fresh manager)
             mgr = ReManager::new();
         }
@@ -1232,6 +1235,31 @@ pub fn drive_c10(a: &Args) {
     for h in &heads {
         for t in &tails {
             overlap_pats.push(T::Cat2(Box::new(h.clone()), Box::new(t.clone())));
+        }
+    }
+    // competing alternatives: a long word that is still alive at the end of the subject (one letter missing), its
+    // suffix from position 1 and an inner piece from position 2 - the match that ENDS first is not the leftmost
+    {
+        let letters = [pool.a, pool.b];
+        let mut words: Vec<Vec<u32>> = vec![];
+        for n in 3..=4usize {
+            for code in 0..(1u32 << n) {
+                words.push((0..n).map(|i| letters[((code >> i) & 1) as usize]).collect());
+            }
+        }
+        for (wi, w) in words.iter().enumerate() {
+            for &x in &letters {
+                if !a.thorough() && (wi + x as usize) % 2 != (a.seed as usize) % 2 {
+                    continue;
+                }
+                let mut long = w.clone();
+                long.push(x);
+                let suffix = T::Str(w[1..].to_vec());
+                let inner = T::Str(w[2..w.len() - 1].to_vec());
+                overlap_pats.push(T::AltL(vec![T::Str(long.clone()), suffix.clone(), inner.clone()]));
+                overlap_pats.push(T::AltL(vec![T::CatL(vec![T::Chr(w[0]), T::All, T::Chr(x), T::Chr(x)]), suffix.clone(), inner.clone()]));
+                overlap_pats.push(T::Alt2(Box::new(T::Str(long)), Box::new(inner)));
+            }
         }
     }
     let mut pats: Vec<(T, bool)> = pats.into_iter().map(|t| (t, false)).collect();
